@@ -826,7 +826,7 @@ def execute(case):
         if any(e.get("variant") == "extra-label" for e in d["entries"]):
             probes["file-with-extra-label"] += 1
     nontrivial = bool(probes.get("add-overlapping-member") or stats.get("faulted_ops") or probes.get("key:present", 0) >= 1 and (probes.get("key:absent-random", 0) + probes.get("key:unsupported-ext", 0) + probes.get("key:subdir", 0)) >= 1)
-    return {"digest": log.digest(), "failures": failures[:8], "n_failures": len(failures), "stats": dict(stats), "probes": dict(probes), "states": sorted(states), "nontrivial": nontrivial, "steps": len(ops)}
+    return {"digest": log.digest(), "failures": failures[:8], "n_failures": len(failures), "stats": dict(stats), "probes": dict(probes), "states": sorted(states), "nontrivial": nontrivial, "steps": len(ops), "schedule": h64("sched", tuple(op.get("client") for op in ops)) & ((1 << 48) - 1)}
 
 
 # --------------------------------------------------------------------------
@@ -1258,3 +1258,6 @@ def describe(prop):
          "the storage medium is a stub (MemoryFS primitives, in-memory archive bytes); the readers above it are the real ones",
          "sampled configurations and histories (plus an exhaustive sweep of embedded items): evidence, not proof"],
     )
+
+
+STATE_MEASURE = 'distinct (operation, key class, fault fired?, oracle failed?, any fault seen earlier in the run?) tuples'
